@@ -236,7 +236,7 @@ Proof.
 Qed.
 
 Lemma lz4_decode_prefixed rawdec n blk : 0 <= n < 2 ^ 32 ->
-  lz4_decode rawdec (be32 n ++ blk) = if n =? 0 then Some [] else rawdec blk n.
+  lz4_decode rawdec (be32 n ++ blk) = if n =? 0 then Some [] else lz4_checked rawdec blk n.
 Proof.
   intros Hn. unfold lz4_decode. rewrite be32_val_be32 by exact Hn.
   rewrite be32_spec. unfold be_bytes4. cbn [app length Nat.ltb Nat.leb skipn]. reflexivity.
@@ -264,7 +264,8 @@ Proof.
   rewrite lz4_decode_prefixed by (unfold blen, size in *; lia).
   destruct (blen data =? 0) eqn:E.
   - apply Z.eqb_eq in E. unfold blen in E. destruct data; [reflexivity | cbn in E; lia].
-  - apply Hraw. exact Hb.
+  - unfold lz4_checked. change (blen data) with (size data). rewrite (Hraw blk Hb).
+    change (blen data) with (size data). rewrite Z.eqb_refl. reflexivity.
 Qed.
 
 (* Cassandra reads what gocql writes, gocql reads what Cassandra writes *)
@@ -278,7 +279,7 @@ Proof.
 Qed.
 
 Lemma gocql_reads_cass_lemma rawdec blk data : size data < 2 ^ 32 ->
-  lz4_decode rawdec (cass_lz4_compress blk data) = if size data =? 0 then Some [] else rawdec blk (size data).
+  lz4_decode rawdec (cass_lz4_compress blk data) = if size data =? 0 then Some [] else lz4_checked rawdec blk (size data).
 Proof.
   intros Hsz. unfold cass_lz4_compress. rewrite <- be32_spec. apply lz4_decode_prefixed. unfold size in *. lia.
 Qed.
@@ -291,9 +292,11 @@ Proof. intros H. unfold lz4_bound. lia. Qed.
 Lemma lz4_short_lemma rawdec data : (length data < 4)%nat -> lz4_decode rawdec data = None.
 Proof. intros H. unfold lz4_decode. replace (length data <? 4)%nat with true by (symmetry; apply Nat.ltb_lt; exact H). reflexivity. Qed.
 
-(* whatever Decode returns is what the block decoder returned (or empty for a zero prefix) *)
+(* whatever Decode returns is what the block decoder returned, of exactly the declared length (or empty for a
+   zero prefix) *)
 Lemma lz4_decode_some rawdec data out : lz4_decode rawdec data = Some out ->
-  (4 <= length data)%nat /\ ((be (firstn 4 data) = 0 /\ out = []) \/ rawdec (skipn 4 data) (be (firstn 4 data)) = Some out).
+  (4 <= length data)%nat /\ ((be (firstn 4 data) = 0 /\ out = [])
+     \/ (rawdec (skipn 4 data) (be (firstn 4 data)) = Some out /\ size out = be (firstn 4 data))).
 Proof.
   unfold lz4_decode. destruct (length data <? 4)%nat eqn:E; [discriminate|].
   apply Nat.ltb_ge in E. intros H. split; [exact E|].
@@ -301,17 +304,30 @@ Proof.
   rewrite be32_val_spec in H. cbn [firstn skipn].
   destruct (be [a; b; c; d] =? 0) eqn:E0.
   - left. apply Z.eqb_eq in E0. inversion H. auto.
-  - right. exact H.
+  - right. unfold lz4_checked in H. cbn [skipn] in H. destruct (rawdec rest (be [a; b; c; d])) as [o|]; [|discriminate].
+    destruct (blen o =? be [a; b; c; d]) eqn:E1; [|discriminate]. inversion H; subst o.
+    apply Z.eqb_eq in E1. split; [reflexivity | exact E1].
 Qed.
 
-(* with a block decoder that returns exactly the number of bytes asked for, an accepted body has the declared length *)
-Lemma lz4_declared_length_lemma rawdec :
-  (forall src n out, rawdec src n = Some out -> size out = n) ->
-  forall data out, lz4_decode rawdec data = Some out -> be (firstn 4 data) = size out.
+(* an accepted body has the length its prefix declares: Decode checks it *)
+Lemma lz4_declared_length_lemma rawdec data out :
+  lz4_decode rawdec data = Some out -> be (firstn 4 data) = size out.
 Proof.
-  intros Hex data out H. destruct (lz4_decode_some _ _ _ H) as [_ [[H0 ->] | Hr]].
+  intros H. destruct (lz4_decode_some _ _ _ H) as [_ [[H0 ->] | [_ Hs]]].
   - rewrite H0. reflexivity.
-  - symmetry. eapply Hex. exact Hr.
+  - symmetry. exact Hs.
+Qed.
+
+(* Decode is Cassandra's decoder (which asks for exactly the declared number of bytes), except that a zero
+   prefix is accepted without looking at the block *)
+Lemma lz4_decode_is_cassandra_lemma rawdec data : (4 <= length data)%nat -> be (firstn 4 data) <> 0 ->
+  lz4_decode rawdec data = cass_lz4_decompress (lz4_checked rawdec) data.
+Proof.
+  intros Hl Hn. unfold lz4_decode, cass_lz4_decompress.
+  replace (length data <? 4)%nat with false by (symmetry; apply Nat.ltb_ge; exact Hl).
+  destruct data as [|a [|b [|c [|d rest]]]]; cbn in Hl; try lia.
+  rewrite be32_val_spec. cbn [firstn skipn] in *.
+  replace (be [a; b; c; d] =? 0) with false by (symmetry; apply Z.eqb_neq; exact Hn). reflexivity.
 Qed.
 
 (* fits the length field: the wrapper adds 4 bytes to a block within the library's bound *)
